@@ -356,6 +356,28 @@ fn run_mig(w: &mut World, case: &Case, code_version: &str) -> Outcome {
     }
     drop(v);
 
+    // a migration is applied once (C20_migrate_once_then_fixed / C20_at_code_version_nothing_changes):
+    // after an accepted migration, a further attempt -- whether the contract answers Ok or
+    // refuses -- changes neither raw storage nor the cw2 record.  Factories are driven
+    // without a message here (a message rewrites their parameters, which is C18's subject).
+    if ok {
+        let again_msg = if c.kind() == Kind::Factory { factory_msg(c, MsgKind::Nothing) } else { factory_msg(c, *msg) };
+        let _ = migrate(&mut w.setup, &again_msg);
+        let post2 = snapshot(&w.setup.app, &addr, &w.qs);
+        if post2.raw != post.raw {
+            let mut keys: BTreeSet<String> = BTreeSet::new();
+            for k in post.raw.keys().chain(post2.raw.keys()) {
+                if post.raw.get(k) != post2.raw.get(k) {
+                    keys.insert(String::from_utf8_lossy(k).to_string());
+                }
+            }
+            viol.push((
+                format!("C20:second-migration-changed:{:?}", c),
+                format!("{:?} stored ({:?}, {:?}) msg {:?}: a second migrate attempt after the accepted one changed raw storage keys {:?}", c, name, version, msg, keys),
+            ));
+        }
+    }
+
     let pre_s = coq_state(name, version, &pre.raw, &mut w.ids);
     let post_s = coq_state(&post_name, &post_version, &post.raw, &mut w.ids);
     Outcome {
